@@ -28,9 +28,27 @@ def _regression_tasks(prop_id):
     return tasks
 
 
+def _import_failure(prop_id, exc):
+    """The check module - i.e. the harness's node classes, which are ordinary user classes built on the mixins (multiple
+    inheritance with slotted or container bases, property overrides, ...) - cannot even be defined on this tree."""
+    import traceback
+
+    detail = "".join(traceback.format_exception(type(exc), exc, exc.__traceback__))
+    viol = {"clause": "user-class-definition", "detail": "the node classes of the check can no longer be defined or imported on this tree:\n" + detail[-3000:], "case": {"kind": "import"}}
+    path = core.write_replay(prop_id, viol)
+    print("VIOLATION property=%s replay=%s" % (prop_id, path))
+    print("  clause: user-class-definition")
+    for line in detail.splitlines()[-12:]:
+        print("  | %s" % line)
+    return 1
+
+
 def run_check(prop_id, tier):
     t0 = time.time()
-    mod = _load(prop_id)
+    try:
+        mod = _load(prop_id)
+    except (TypeError, AttributeError, ValueError, RuntimeError, ImportError) as exc:
+        return _import_failure(prop_id, exc)
     seed = core.seed_value()
     total = core.Total()
     tasks = _regression_tasks(prop_id) + list(mod.plan(tier, seed))
@@ -89,6 +107,13 @@ def replay(prop_id, path):
         doc = json.load(fh)
     case = doc["case"] if isinstance(doc, dict) and "case" in doc else doc
     assertions = int(case.get("assertions", 0)) if isinstance(case, dict) else 0
+    if isinstance(case, dict) and case.get("kind") == "import":
+        try:
+            _load(prop_id)
+        except (TypeError, AttributeError, ValueError, RuntimeError, ImportError) as exc:
+            return _import_failure(prop_id, exc)
+        print("%s replay OK: %s" % (prop_id, path))
+        return 0
 
     def go(mod):
         acc = core.Acc()
